@@ -150,7 +150,7 @@ Proof.
     subst o3. cbn [concat app]. rewrite map_app. split; [reflexivity|]. split; congruence.
 Qed.
 (* ---------- symbolic execution, call-by-value on literal states ---------- *)
-Ltac pcbn := cbn beta iota delta [e_t e_in e_jr e_jn
+Ltac pcbn := cbn beta iota delta [step_in e_t e_in e_jr e_jn
   active tm_retransmit tm_keepalive tm_newhs tm_zero tm_persist attempts
   need_another sent_last_minute last_sent_hs pka staged kp_cur kp_next hs
   set_active set_tm_retransmit set_tm_keepalive set_tm_newhs set_tm_zero set_tm_persist
@@ -730,4 +730,72 @@ Proof.
   - destruct n as [|k]; [exact HA|].
     rewrite nth_S_cons in HA |- *. rewrite (tx_nth_indep k (S k) 20) by lia. exact HA.
   - rewrite (tx_nth_indep n (S n) 20) by lia. exact HB.
+Qed.
+
+(* ---- fault: the bind refuses an initiation; restart (device Down/Up) ---- *)
+
+Lemma step_fail_retry q i t d j :
+  i <= 18 -> t + RekeyTimeout <= d ->
+  step (rstate q i t d) (mkev d (IFail (IFire TRetransmit)) j) =
+  (rstate q (i + 1) d (d + RekeyTimeout + ms * fst j), [OErr 0]).
+Proof.
+  intros Hi Hd. unfold step, mkev. cbn [e_t e_in e_jr e_jn step_in].
+  rewrite (fire_retry q i t d (fst j) (snd j) Hi Hd). reflexivity.
+Qed.
+
+(* The retransmission whose Send fails is an attempt like any other: the next
+   one follows 5 s + jitter after it. *)
+Theorem retransmit_after_send_error : forall ts t0 ids j0 j1 js T fuel,
+  RekeyTimeout + sec <= ts -> ts <= t0 -> jit_ok j0 -> jit_ok j1 ->
+  let r1 := step (started 0 ts) (mkev t0 (ITun ids) j0) in
+  let d1 := t0 + RekeyTimeout + ms * fst j0 in
+  let r2 := step (fst r1) (mkev d1 (IFail (IFire TRetransmit)) j1) in
+  let d2 := d1 + RekeyTimeout + ms * fst j1 in
+  d2 <= T -> T < d2 + RekeyTimeout -> (2 <= fuel)%nat ->
+  snd r1 = [OInit] /\ snd r2 = [OErr 0] /\ snd (idle fuel js T (fst r2)) = [(d2, OInit)].
+Proof.
+  intros ts t0 ids j0 j1 js T fuel H1 H2 Hj0 Hj1 r1 d1 r2 d2 HA HB Hf.
+  subst r1 r2 d2 d1. rewrite (first_tun ts t0 ids j0 H1 H2). cbn [fst snd].
+  rewrite step_fail_retry by lia. cbn [fst snd].
+  refine (conj eq_refl (conj eq_refl _)).
+  destruct fuel as [|f]; [lia|]. destruct f as [|f]; [lia|].
+  rewrite (idle_fire _ js T _ _ _ (next_due_rstate _ _ _ _) HA).
+  rewrite fire_retry by lia.
+  rewrite (idle_late _ (tl js) T _ _ _ (next_due_rstate _ _ _ _)) by lia.
+  reflexivity.
+Qed.
+
+Lemma stop_eq a tr tk tn tz tp att na slm lsh p q kc kn h t j :
+  fst (step {| active := a; tm_retransmit := tr; tm_keepalive := tk; tm_newhs := tn; tm_zero := tz;
+               tm_persist := tp; attempts := att; need_another := na; sent_last_minute := slm;
+               last_sent_hs := lsh; pka := p; staged := q; kp_cur := kc; kp_next := kn; hs := h |}
+            (mkev t IStop j)) =
+  {| active := false; tm_retransmit := t_del tr; tm_keepalive := t_del tk; tm_newhs := t_del tn;
+     tm_zero := t_del tz; tm_persist := t_del tp; attempts := att; need_another := na;
+     sent_last_minute := slm; last_sent_hs := lsh; pka := p; staged := []; kp_cur := None;
+     kp_next := None; hs := hsZeroed |}.
+Proof. reflexivity. Qed.
+
+(* Device Down then Up at t' (any earlier history, any lastSentHandshake): with a
+   persistent keepalive the restarted peer initiates at once ... *)
+Theorem restart_with_persistent_keepalive_initiates : forall s t t' j j',
+  0 < pka s -> RekeyTimeout + sec <= t' ->
+  snd (step (fst (step s (mkev t IStop j))) (mkev t' IStart j')) = [OInit].
+Proof.
+  intros s t t' j j' Hp Ht.
+  destruct s as [a tr tk tn tz tp att na slm lsh p q kc kn h].
+  cbn [pka] in Hp. rewrite stop_eq. go.
+  all: try reflexivity; try lia'.
+Qed.
+
+(* ... and without one, the first TUN batch after the restart does. *)
+Theorem restart_then_traffic_initiates : forall s t t' t'' j j' j'' ids,
+  pka s = 0 -> RekeyTimeout + sec <= t' -> t' <= t'' ->
+  let r2 := step (fst (step s (mkev t IStop j))) (mkev t' IStart j') in
+  snd r2 = [] /\ snd (step (fst r2) (mkev t'' (ITun ids) j'')) = [OInit].
+Proof.
+  intros s t t' t'' j j' j'' ids Hp Ht Ht' r2. subst r2.
+  destruct s as [a tr tk tn tz tp att na slm lsh p q kc kn h].
+  cbn [pka] in Hp. subst p. rewrite stop_eq. go.
+  all: try (split; reflexivity); try lia'.
 Qed.
